@@ -27,6 +27,11 @@ def sup_case(draw, nmax=10, kinds=("sup",), nq=(0, 0), nu=(0, 0), modes=("pre", 
         Y = [ids[y] for y in Y]
     m = nt + n_u + n_q
     case = {"model": model, "mode": mode, "nt": nt, "nu": n_u, "nq": n_q, "Y": Y}
+    if draw(st.integers(0, 2)) == 0:
+        # the model object has a HISTORY before the fit that is checked: earlier fits on other data, predictions, helper calls,
+        # a save/load round trip into a default-constructed object; and helper calls between the fit and the prediction
+        case["prelude"] = draw(st.lists(st.sampled_from(["fit_other", "predict_other", "get_distances", "via_load", "fit_other"]), min_size=1, max_size=4))
+        case["mid"] = draw(st.lists(st.sampled_from(["get_distances", "predict_other"]), min_size=0, max_size=2))
     if mode == "pre":
         W, wm = draw(gen.weight_matrix(m, mode=wmode))
         case["W"] = W
@@ -137,14 +142,50 @@ def run(case, predict=True, check_diag=True, need_symmetric=True):
     if why:
         return why
     r.inputs = [Xtr.copy(), Y.copy(), Xun.copy(), Xq.copy()]
-    if case["model"] == "semi":
-        libcall(model.fit, Xtr, Y, Xun, I_tr)
-    else:
-        libcall(model.fit, Xtr, Y, I_tr)
+
+    def _fit(m, X_, Y_, I_, U_=None):
+        if case["model"] == "semi":
+            libcall(m.fit, X_, Y_, Xun if U_ is None else U_, I_)
+        else:
+            libcall(m.fit, X_, Y_, I_)
+
+    def _other_data():
+        # the same rows in reverse order with the labels kept in place: another labelled set of the same size and classes
+        Xo = Xtr[::-1].copy()
+        Io = None if I_tr is None else I_tr[::-1].copy()
+        return Xo, Y.copy(), Io
+
+    import os
+    import tempfile
+
+    for op in case.get("prelude", []):
+        trained = getattr(model, "subgraph", None) is not None and model.subgraph.trained
+        if op == "fit_other":
+            Xo, Yo, Io = _other_data()
+            # (semi-supervised, feature mode, empty unlabeled set in the case: the EARLIER fit has a non-empty one)
+            U_ = Xtr[:2].copy() if (case["model"] == "semi" and nu == 0 and case["mode"] == "feat") else None
+            _fit(model, Xo, Yo, Io, U_)
+        elif op == "predict_other" and trained:
+            libcall(model.predict, Xtr[:2].copy(), None if I_tr is None else I_tr[:2].copy())
+        elif op == "get_distances" and trained:
+            libcall(model.get_distances)
+        elif op == "via_load":
+            # save the (possibly fitted) model and continue with a DEFAULT-constructed object that loaded the file
+            with tempfile.TemporaryDirectory(prefix="supcase-") as tmp:
+                f = os.path.join(tmp, "m.pkl")
+                libcall(model.save, f)
+                model = libcall(cls)
+                libcall(model.load, f)
+    _fit(model, Xtr, Y, I_tr)
     r.model = model
     r.state = models.node_state(model)
     r.preds = None
     if predict and nq:
+        for op in case.get("mid", []):
+            if op == "get_distances":
+                libcall(model.get_distances)
+            elif op == "predict_other":
+                libcall(model.predict, Xtr[::-1].copy(), None if I_tr is None else I_tr[::-1].copy())
         r.preds = [int(v) for v in libcall(model.predict, Xq, I_q)]
     r.Xq, r.I_q = Xq, I_q
     r.Xtr, r.I_tr = Xtr, I_tr
